@@ -19,7 +19,8 @@ ASSUMPTIONS = ['reference = the same source executed by plain exec() under CPyth
 EXPLANATION = 'exhaustive product of a finite alphabet of termination modes and entry points on the real Sandbox'
 
 BLOCKED = ('compile()', 'eval()', 'exec()', 'globals()', 'open py', 'open w', 'import pedal', 'from pedal', 'OSError',
-           'exit()', 'quit()')
+           'exit()', 'quit()') + tuple(m for m in sc.MODES if m.startswith('open:'))
+WRITES = ('open w',) + tuple(m for m in sc.MODES if m.startswith('open:'))    # never executed by the reference
 ENTRIES = ['run', 'run-code', 'call', 'evaluate', 'import', 'evaluate-expr']
 TRACERS = ['none', 'native', 'calls']
 MODE_NAMES = list(sc.MODES)
@@ -27,11 +28,18 @@ MODE_NAMES = list(sc.MODES)
 
 def _setup():
     sc.lazy()
+    # the file the write-mode programs name exists (in the scratch working directory): opening it for update would
+    # succeed if the sandbox let the call through
+    with open('made_by_student.txt', 'w') as f:
+        f.write('kept\n')
 
 
 def _expected(mode, entry, main, files):
     """(class name or None if not predicted, student line or None, file)"""
     code = sc.MODES[mode]
+    if mode in WRITES:
+        # refused by the sandbox itself, whatever exists on disk: the failure is the refusal
+        return 'RuntimeError', None, 'answer.py'
     if mode in sc.SYSTEM_EXIT and mode not in BLOCKED:
         cls = 'SystemExit'
     elif mode in BLOCKED:
